@@ -4,6 +4,7 @@ import (
 	"fmt"
 	"os"
 
+	"verif/checks/c10"
 	"verif/checks/c13"
 	"verif/checks/c14"
 	"verif/checks/c22"
@@ -11,6 +12,7 @@ import (
 )
 
 var checks = map[string]func(){
+	"C10": c10.Main,
 	"C13": c13.Main,
 	"C14": c14.Main,
 	"C22": c22.Main,
